@@ -31,9 +31,12 @@ pub open spec fn is_mod(k: KeyCode) -> bool {
   || k == KeyCode::LEFTCTRL || k == KeyCode::RIGHTCTRL || k == KeyCode::LEFTALT || k == KeyCode::RIGHTALT
 }
 
+//@ C07 C14 | default: fn is_action_key
 fn is_action_key(k: &KeyCode) -> (r: bool)
-  ensures r == !is_mod(*k)
-{
+  ensures
+    //@ C07 | after a no-repeat mapping fires only modifiers are held
+    r == !is_mod(*k),
+  { //@ | body
   use KeyCode::{LEFTSHIFT, RIGHTSHIFT, LEFTMETA, RIGHTMETA, LEFTCTRL, RIGHTCTRL, LEFTALT, RIGHTALT};
   
   match k {
@@ -285,26 +288,43 @@ spec fn shadowed_by_other(am: Seq<Mapping>, i: int, k: KeyCode) -> bool {
   exists|j: int| 0 <= j < am.len() && j != i && #[trigger] am[j].from@.contains(k)
 }
 
+//@ C01 C02 C05 C07 C09 C14 C19 | default: fn remove_mapping
 fn remove_mapping(state: &mut State, i: usize, removed_key: KeyCode) -> (res: Vec<Event>)
-  requires wf(*old(state)), i < old(state).active_mappings@.len(),
-  ensures wf(*final(state)),
+  requires
+    //@ C19 | bookkeeping equals the fold of the emitted events; no redundant press or release
+    wf(*old(state)),
+    //@  | frame / auxiliary
+    i < old(state).active_mappings@.len(),
+  ensures
+    //@ C19 | bookkeeping equals the fold of the emitted events; no redundant press or release
+    wf(*final(state)),
     apply(held(*old(state)), res@) == Some(held(*final(state))),
+    //@  | frame / auxiliary
     final(state).active_mappings@ == old(state).active_mappings@.remove(i as int),
+    //@ C01 C02 C09 | effect of the call on the list of keys considered pressed
     final(state).input_pressed_keys@ == old(state).input_pressed_keys@,
+    //@  | frame / auxiliary
     final(state).mapped_absorbed_keys@ == old(state).mapped_absorbed_keys@,
     final(state).absorbing_trigger == old(state).absorbing_trigger,
     final(state).repeating_trigger == old(state).repeating_trigger,
+    //@ C02 C07 | release paths emit only releases
     forall|e: Event| res@.contains(e) ==> e is Released,
     all_released(res@),
+    //@  | frame / auxiliary
     forall|k: KeyCode| #[trigger] final(state).mapped_output_keys@.contains(k) ==> old(state).mapped_output_keys@.contains(k) && used_by_other(old(state).active_mappings@, i as int, k),
+    //@ C01 C02 C09 | effect of the call on the list of keys considered pressed
     forall|k: KeyCode| #[trigger] final(state).pass_through_keys@.contains(k) ==> old(state).pass_through_keys@.contains(k) || (old(state).input_pressed_keys@.contains(k) && old(state).mapped_output_keys@.contains(k)),
+    //@ C01 C02 | inclusion invariant J (every held output key is justified by what is pressed)
     j1(*final(state)),
     j2(*old(state)) ==> j2(*final(state)),
     j3(*old(state)) ==> j3(*final(state)),
+    //@ C02 | (d) trigger keys of mappings in effect are consumed (not passed through)
     j4(*old(state)) ==> j4(*final(state)),
+    //@ C05 | a release lifts only the key itself or outputs owned by its mappings; pass-through keys are not outputs of mappings in effect
     j6(*old(state)) ==> j6(*final(state)),
+    //@  | frame / auxiliary
     forall|x: KeyCode| rel(res@, x) ==> old(state).mapped_output_keys@.contains(x) && !used_by_other(old(state).active_mappings@, i as int, x),
-{
+  { //@ | body
   let mut res: Vec<Event> = Vec::new();
   
   let active_mappings = &mut state.active_mappings;
@@ -315,24 +335,32 @@ fn remove_mapping(state: &mut State, i: usize, removed_key: KeyCode) -> (res: Ve
   let ghost n0 = old(state).mapped_output_keys@.len();
   for mapped_output_i in it: (0 .. state.mapped_output_keys.len()).rev()
     invariant
+      //@  | frame / auxiliary
       it.seq().len() == n0,
       forall|j: int| 0 <= j < n0 ==> it.seq()[j] == n0 - 1 - j,
       i < active_mappings@.len(),
       active_mappings@ == old(state).active_mappings@,
+      //@ C01 C02 C09 | effect of the call on the list of keys considered pressed
       input_pressed_keys@ == old(state).input_pressed_keys@,
+      //@  | frame / auxiliary
       state.mapped_output_keys@.len() >= n0 - it.index@,
+      //@ C19 | bookkeeping equals the fold of the emitted events; no redundant press or release
       state.mapped_output_keys@.no_duplicates(),
       pass_through_keys@.no_duplicates(),
       pass_through_keys@.to_set().disjoint(state.mapped_output_keys@.to_set()),
       apply(h0, res@) == Some(pass_through_keys@.to_set().union(state.mapped_output_keys@.to_set())),
+      //@ C02 C07 | release paths emit only releases
       forall|e: Event| res@.contains(e) ==> e is Released,
+      //@  | frame / auxiliary
       forall|j: int| 0 <= j < n0 - it.index@ ==> #[trigger] state.mapped_output_keys@[j] == old(state).mapped_output_keys@[j],
       forall|j: int| n0 - it.index@ <= j < state.mapped_output_keys@.len() ==> used_by_other(active_mappings@, i as int, #[trigger] state.mapped_output_keys@[j]) && old(state).mapped_output_keys@.contains(state.mapped_output_keys@[j]),
+      //@ C01 C02 C09 | effect of the call on the list of keys considered pressed
       forall|x: KeyCode| #[trigger] pass_through_keys@.contains(x) ==> old(state).pass_through_keys@.contains(x) || (old(state).input_pressed_keys@.contains(x) && old(state).mapped_output_keys@.contains(x)),
+      //@  | frame / auxiliary
       forall|x: KeyCode| #[trigger] pass_through_keys@.contains(x) ==> old(state).pass_through_keys@.contains(x) || !shadowed_by_other(active_mappings@, i as int, x),
       forall|x: KeyCode| #[trigger] pass_through_keys@.contains(x) ==> old(state).pass_through_keys@.contains(x) || !used_by_other(active_mappings@, i as int, x),
       forall|x: KeyCode| #[trigger] rel(res@, x) ==> old(state).mapped_output_keys@.contains(x) && !used_by_other(active_mappings@, i as int, x),
-  {
+    { //@ | body
     let ghost mo0 = state.mapped_output_keys@;
     let ghost pt0 = pass_through_keys@;
     let ghost res0 = res@;
@@ -342,10 +370,15 @@ fn remove_mapping(state: &mut State, i: usize, removed_key: KeyCode) -> (res: Ve
     proof { assert(k == old(state).mapped_output_keys@[mapped_output_i as int]); assert(old(state).mapped_output_keys@.contains(k)); }
     let mut still_used: bool = false;
     for j in 0 .. active_mappings.len()
-      invariant i < active_mappings@.len(), still_used ==> used_by_other(active_mappings@, i as int, k),
+      invariant
+        //@  | frame / auxiliary
+        i < active_mappings@.len(),
+        still_used ==> used_by_other(active_mappings@, i as int, k),
         !still_used ==> forall|j2: int| 0 <= j2 < j && j2 != i ==> !(#[trigger] active_mappings@[j2]).to@.contains(k),
-      ensures !still_used ==> !used_by_other(active_mappings@, i as int, k),
-    {
+      ensures
+        //@  | frame / auxiliary
+        !still_used ==> !used_by_other(active_mappings@, i as int, k),
+      { //@ | body
       if j != i {
         if active_mappings[j].to.contains(&k) {
           still_used = true;
@@ -358,11 +391,14 @@ fn remove_mapping(state: &mut State, i: usize, removed_key: KeyCode) -> (res: Ve
       if input_pressed_keys.contains(&k) && k != removed_key {
         let mut still_shadowed = false;
         for j in 0 .. active_mappings.len()
-          invariant i < active_mappings@.len(),
+          invariant
+            //@  | frame / auxiliary
+            i < active_mappings@.len(),
             !still_shadowed ==> forall|j2: int| 0 <= j2 < j && j2 != i ==> !(#[trigger] active_mappings@[j2]).from@.contains(k),
           ensures
+            //@  | frame / auxiliary
             !still_shadowed ==> !shadowed_by_other(active_mappings@, i as int, k),
-        {
+          { //@ | body
           if j != i {
             if active_mappings[j].from.contains(&k) {
               still_shadowed = true;
@@ -438,17 +474,28 @@ fn is_any_modifier(keys: &Vec<KeyCode>) -> bool {
   keys.iter().any(|k| !is_action_key(k))
 }
 
+//@ C01 C02 C07 C09 C14 C19 | default: fn release_action_mappings
 fn release_action_mappings(state: &mut State) -> (events: Vec<Event>)
-  requires wf(*old(state))
-  ensures wf(*final(state)),
+  requires
+    //@ C19 | bookkeeping equals the fold of the emitted events; no redundant press or release
+    wf(*old(state)),
+  ensures
+    //@ C19 | bookkeeping equals the fold of the emitted events; no redundant press or release
+    wf(*final(state)),
     apply(held(*old(state)), events@) == Some(held(*final(state))),
+    //@  | frame / auxiliary
     final(state).active_mappings@ == old(state).active_mappings@,
+    //@ C01 C02 C09 | effect of the call on the list of keys considered pressed
     final(state).input_pressed_keys@ == old(state).input_pressed_keys@,
+    //@  | frame / auxiliary
     final(state).pass_through_keys@ == old(state).pass_through_keys@,
+    //@ C02 C07 | release paths emit only releases
     forall|e: Event| events@.contains(e) ==> e is Released,
+    //@  | frame / auxiliary
     sub(final(state).mapped_output_keys@, old(state).mapped_output_keys@),
-    final(state).mapped_absorbed_keys@ == old(state).mapped_absorbed_keys@, final(state).absorbing_trigger == old(state).absorbing_trigger,
-{
+    final(state).mapped_absorbed_keys@ == old(state).mapped_absorbed_keys@,
+    final(state).absorbing_trigger == old(state).absorbing_trigger,
+  { //@ | body
   let mut events = Vec::new();
   let ghost mo_old = old(state).mapped_output_keys@.to_set();
   let ghost pt_old = old(state).pass_through_keys@.to_set();
@@ -456,20 +503,42 @@ fn release_action_mappings(state: &mut State) -> (events: Vec<Event>)
   let mut keys_to_release: Vec<KeyCode> = Vec::new();
   for exsting_mapping in it1: &state.active_mappings
     invariant
-      state.mapped_output_keys@ == old(state).mapped_output_keys@, state.pass_through_keys@ == old(state).pass_through_keys@, state.active_mappings@ == old(state).active_mappings@, state.input_pressed_keys@ == old(state).input_pressed_keys@, state.mapped_absorbed_keys@ == old(state).mapped_absorbed_keys@, state.absorbing_trigger == old(state).absorbing_trigger,
-      mo_old == old(state).mapped_output_keys@.to_set(), pt_old == old(state).pass_through_keys@.to_set(),
+      //@  | frame / auxiliary
+      state.mapped_output_keys@ == old(state).mapped_output_keys@,
+      state.pass_through_keys@ == old(state).pass_through_keys@,
+      state.active_mappings@ == old(state).active_mappings@,
+      //@ C01 C02 C09 | effect of the call on the list of keys considered pressed
+      state.input_pressed_keys@ == old(state).input_pressed_keys@,
+      //@  | frame / auxiliary
+      state.mapped_absorbed_keys@ == old(state).mapped_absorbed_keys@,
+      state.absorbing_trigger == old(state).absorbing_trigger,
+      mo_old == old(state).mapped_output_keys@.to_set(),
+      pt_old == old(state).pass_through_keys@.to_set(),
+      //@ C19 | bookkeeping equals the fold of the emitted events; no redundant press or release
       keys_to_release@.no_duplicates(),
+      //@  | frame / auxiliary
       keys_to_release@.to_set().subset_of(mo_old),
-  {
+    { //@ | body
     if is_action_mapping(exsting_mapping) {
       if exsting_mapping.to.len() > 1 && is_any_modifier(&exsting_mapping.to) {
         for mod_key in it2: exsting_mapping.to.iter().rev()
           invariant
-            state.mapped_output_keys@ == old(state).mapped_output_keys@, state.pass_through_keys@ == old(state).pass_through_keys@, state.active_mappings@ == old(state).active_mappings@, state.input_pressed_keys@ == old(state).input_pressed_keys@, state.mapped_absorbed_keys@ == old(state).mapped_absorbed_keys@, state.absorbing_trigger == old(state).absorbing_trigger,
-            mo_old == old(state).mapped_output_keys@.to_set(), pt_old == old(state).pass_through_keys@.to_set(),
+            //@  | frame / auxiliary
+            state.mapped_output_keys@ == old(state).mapped_output_keys@,
+            state.pass_through_keys@ == old(state).pass_through_keys@,
+            state.active_mappings@ == old(state).active_mappings@,
+            //@ C01 C02 C09 | effect of the call on the list of keys considered pressed
+            state.input_pressed_keys@ == old(state).input_pressed_keys@,
+            //@  | frame / auxiliary
+            state.mapped_absorbed_keys@ == old(state).mapped_absorbed_keys@,
+            state.absorbing_trigger == old(state).absorbing_trigger,
+            mo_old == old(state).mapped_output_keys@.to_set(),
+            pt_old == old(state).pass_through_keys@.to_set(),
+            //@ C19 | bookkeeping equals the fold of the emitted events; no redundant press or release
             keys_to_release@.no_duplicates(),
+            //@  | frame / auxiliary
             keys_to_release@.to_set().subset_of(mo_old),
-        {
+          { //@ | body
           if state.mapped_output_keys.contains(mod_key) && !keys_to_release.contains(mod_key) {
             let ghost k0 = keys_to_release@;
             keys_to_release.push(*mod_key);
@@ -482,10 +551,11 @@ fn release_action_mappings(state: &mut State) -> (events: Vec<Event>)
   
   for k in it3: &keys_to_release
     invariant
+      //@  | frame / auxiliary
       events@ =~= rel_seq(keys_to_release@.subrange(0, it3.index@ as int)),
       it3.seq().len() == keys_to_release@.len(),
       forall|j: int| 0 <= j < keys_to_release@.len() ==> *it3.seq()[j] == keys_to_release@[j],
-  {
+    { //@ | body
     let ghost e0 = events@;
     events.push(Released(*k));
     proof {
@@ -497,12 +567,21 @@ fn release_action_mappings(state: &mut State) -> (events: Vec<Event>)
   let ghost ktr = keys_to_release@.to_set();
   let mut __i: usize = 0; while __i < state.mapped_output_keys.len()
       invariant
+        //@  | frame / auxiliary
         __i <= state.mapped_output_keys.len(),
         state.active_mappings@ == old(state).active_mappings@,
-        state.input_pressed_keys@ == old(state).input_pressed_keys@, state.mapped_absorbed_keys@ == old(state).mapped_absorbed_keys@, state.absorbing_trigger == old(state).absorbing_trigger,
+        //@ C01 C02 C09 | effect of the call on the list of keys considered pressed
+        state.input_pressed_keys@ == old(state).input_pressed_keys@,
+        //@  | frame / auxiliary
+        state.mapped_absorbed_keys@ == old(state).mapped_absorbed_keys@,
+        state.absorbing_trigger == old(state).absorbing_trigger,
         state.pass_through_keys@ == old(state).pass_through_keys@,
-        mo_old == old(state).mapped_output_keys@.to_set(), pt_old == old(state).pass_through_keys@.to_set(), ktr == keys_to_release@.to_set(),
+        mo_old == old(state).mapped_output_keys@.to_set(),
+        pt_old == old(state).pass_through_keys@.to_set(),
+        ktr == keys_to_release@.to_set(),
+        //@ C19 | bookkeeping equals the fold of the emitted events; no redundant press or release
         state.mapped_output_keys@.no_duplicates(),
+        //@  | frame / auxiliary
         state.mapped_output_keys@.to_set().subset_of(mo_old),
         mo_old.difference(ktr).subset_of(state.mapped_output_keys@.to_set()),
         forall|j: int| 0 <= j < __i ==> !ktr.contains(#[trigger] state.mapped_output_keys@[j]),
@@ -520,12 +599,21 @@ fn release_action_mappings(state: &mut State) -> (events: Vec<Event>)
   } }
   let mut __i: usize = 0; while __i < state.pass_through_keys.len()
       invariant
+        //@  | frame / auxiliary
         __i <= state.pass_through_keys.len(),
         state.active_mappings@ == old(state).active_mappings@,
-        state.input_pressed_keys@ == old(state).input_pressed_keys@, state.mapped_absorbed_keys@ == old(state).mapped_absorbed_keys@, state.absorbing_trigger == old(state).absorbing_trigger,
+        //@ C01 C02 C09 | effect of the call on the list of keys considered pressed
+        state.input_pressed_keys@ == old(state).input_pressed_keys@,
+        //@  | frame / auxiliary
+        state.mapped_absorbed_keys@ == old(state).mapped_absorbed_keys@,
+        state.absorbing_trigger == old(state).absorbing_trigger,
         state.pass_through_keys@ == old(state).pass_through_keys@,
-        mo_old == old(state).mapped_output_keys@.to_set(), pt_old == old(state).pass_through_keys@.to_set(), ktr == keys_to_release@.to_set(),
-        ktr.subset_of(mo_old), pt_old.disjoint(mo_old),
+        mo_old == old(state).mapped_output_keys@.to_set(),
+        pt_old == old(state).pass_through_keys@.to_set(),
+        ktr == keys_to_release@.to_set(),
+        ktr.subset_of(mo_old),
+        //@ C19 | bookkeeping equals the fold of the emitted events; no redundant press or release
+        pt_old.disjoint(mo_old),
       decreases state.pass_through_keys.len() - __i
     { let __keep = { let k = state.pass_through_keys[__i];
       proof { assert(state.pass_through_keys@.contains(k)); lemma_ts(old(state).pass_through_keys@, k); assert(pt_old.contains(k)); assert(!ktr.contains(k)); lemma_ts(keys_to_release@, k); }
@@ -567,6 +655,18 @@ pub proof fn lemma_apply_append(h: Set<KeyCode>, a: Seq<Event>, b: Seq<Event>)
   }
 }
 
+pub proof fn lemma_apply_only_releases(h: Set<KeyCode>, evs: Seq<Event>)
+  requires all_released(evs), apply(h, evs) is Some
+  ensures apply(h, evs).unwrap().subset_of(h)
+  decreases evs.len()
+{
+  if evs.len() > 0 {
+    assert(all_released(evs.drop_last())) by { assert forall|e: Event| evs.drop_last().contains(e) implies e is Released by { assert(evs.contains(e)); } }
+    lemma_apply_only_releases(h, evs.drop_last());
+    assert(evs.contains(evs.last()));
+  }
+}
+
 pub proof fn lemma_append_contains<T>(a: Seq<T>, b: Seq<T>)
   ensures forall|x: T| #[trigger] (a + b).contains(x) <==> (a.contains(x) || b.contains(x))
 {
@@ -577,15 +677,19 @@ pub proof fn lemma_append_contains<T>(a: Seq<T>, b: Seq<T>)
   }
 }
 
+//@ C14 | default: fn fails_when_released
 fn fails_when_released(trigger: &Vec<KeyCode>, key: &KeyCode) -> (r: bool)
-  ensures r == trigger@.contains(*key)
-{
+  ensures
+    //@  | frame / auxiliary
+    r == trigger@.contains(*key),
+  { //@ | body
   for k in it: trigger
     invariant
+      //@  | frame / auxiliary
       it.seq().len() == trigger@.len(),
       forall|j: int| 0 <= j < trigger@.len() ==> *it.seq()[j] == trigger@[j],
       forall|j: int| 0 <= j < it.index@ ==> trigger@[j] != *key,
-  {
+    { //@ | body
     if k == key {
       return true;
     }
@@ -604,24 +708,37 @@ spec fn rak_inv(st: State, o: State, h0: Set<KeyCode>, evs: Seq<Event>, done: Se
   &&& am_sub(st.active_mappings@, st.active_mappings@.len() as int, o.active_mappings@)
 }
 
+//@ C01 C02 C05 C07 C09 C14 C19 | default: fn release_absorbed_keys
 fn release_absorbed_keys(state: &mut State) -> (events: Vec<Event>)
-  requires wf(*old(state))
-  ensures wf(*final(state)),
+  requires
+    //@ C19 | bookkeeping equals the fold of the emitted events; no redundant press or release
+    wf(*old(state)),
+  ensures
+    //@ C19 | bookkeeping equals the fold of the emitted events; no redundant press or release
+    wf(*final(state)),
     apply(held(*old(state)), events@) == Some(held(*final(state))),
+    //@ C02 C07 | release paths emit only releases
     all_released(events@),
+    //@  | frame / auxiliary
     final(state).mapped_absorbed_keys@.len() == 0,
     final(state).absorbing_trigger is None,
     sub(final(state).mapped_output_keys@, old(state).mapped_output_keys@),
+    //@ C01 C02 C09 | effect of the call on the list of keys considered pressed
     forall|x: KeyCode| #[trigger] final(state).pass_through_keys@.contains(x) ==> old(state).pass_through_keys@.contains(x) || old(state).input_pressed_keys@.contains(x),
     sub(final(state).input_pressed_keys@, old(state).input_pressed_keys@),
+    //@ C01 C02 | inclusion invariant J (every held output key is justified by what is pressed)
     final(state).active_mappings@ == old(state).active_mappings@ || j1(*final(state)),
     j2(*old(state)) ==> j2(*final(state)),
     j3(*old(state)) ==> j3(*final(state)),
+    //@ C02 | (d) trigger keys of mappings in effect are consumed (not passed through)
     j4(*old(state)) ==> j4(*final(state)),
+    //@ C05 | a release lifts only the key itself or outputs owned by its mappings; pass-through keys are not outputs of mappings in effect
     j6(*old(state)) ==> j6(*final(state)),
+    //@ C01 C02 C09 | effect of the call on the list of keys considered pressed
     forall|x: KeyCode| #[trigger] old(state).input_pressed_keys@.contains(x) && !old(state).mapped_absorbed_keys@.contains(x) ==> final(state).input_pressed_keys@.contains(x),
+    //@ C01 C02 | inclusion invariant J (every held output key is justified by what is pressed)
     am_sub(final(state).active_mappings@, final(state).active_mappings@.len() as int, old(state).active_mappings@),
-{
+  { //@ | body
   let mut events: Vec<Event> = Vec::new();
   let ghost h0 = held(*old(state));
   proof { lemma_am_sub_refl(old(state).active_mappings@); }
@@ -634,12 +751,17 @@ fn release_absorbed_keys(state: &mut State) -> (events: Vec<Event>)
   
   for k in it0: to_remove
     invariant
+      //@  | frame / auxiliary
       it0.seq() == tr,
+      //@ C01 C02 | inclusion invariant J (every held output key is justified by what is pressed)
       rak_inv(*state, *old(state), h0, events@, tr.take(it0.index@ as int)),
       j2(*old(state)) ==> j2(*state),
       j3(*old(state)) ==> j3(*state),
-      j4(*old(state)) ==> j4(*state), j6(*old(state)) ==> j6(*state),
-  {
+      //@ C02 | (d) trigger keys of mappings in effect are consumed (not passed through)
+      j4(*old(state)) ==> j4(*state),
+      //@ C05 | a release lifts only the key itself or outputs owned by its mappings; pass-through keys are not outputs of mappings in effect
+      j6(*old(state)) ==> j6(*state),
+    { //@ | body
     let ghost done0 = tr.take(it0.index@ as int);
     let ghost done1 = tr.take(it0.index@ as int + 1);
     proof { assert(done1 =~= done0.push(k)); lemma_push_contains(done0, k); }
@@ -648,13 +770,25 @@ fn release_absorbed_keys(state: &mut State) -> (events: Vec<Event>)
       let mut i: isize = state.active_mappings.len() as isize - 1;
       while i >= 0
         invariant
+          //@  | frame / auxiliary
           -1 <= i < state.active_mappings@.len(),
+          //@ C01 C02 | inclusion invariant J (every held output key is justified by what is pressed)
           rak_inv(*state, *old(state), h0, events@, done0),
           j2(*old(state)) ==> j2(*state),
           j3(*old(state)) ==> j3(*state),
-        j4(*old(state)) ==> j4(*state), j6(*old(state)) ==> j6(*state),
-          j4(*old(state)) ==> j4(*state), j6(*old(state)) ==> j6(*state),
-      j4(*old(state)) ==> j4(*state), j6(*old(state)) ==> j6(*state),
+          //@ C02 | (d) trigger keys of mappings in effect are consumed (not passed through)
+          j4(*old(state)) ==> j4(*state),
+          //@ C05 | a release lifts only the key itself or outputs owned by its mappings; pass-through keys are not outputs of mappings in effect
+          j6(*old(state)) ==> j6(*state),
+          //@ C02 | (d) trigger keys of mappings in effect are consumed (not passed through)
+          j4(*old(state)) ==> j4(*state),
+          //@ C05 | a release lifts only the key itself or outputs owned by its mappings; pass-through keys are not outputs of mappings in effect
+          j6(*old(state)) ==> j6(*state),
+          //@ C02 | (d) trigger keys of mappings in effect are consumed (not passed through)
+          j4(*old(state)) ==> j4(*state),
+          //@ C05 | a release lifts only the key itself or outputs owned by its mappings; pass-through keys are not outputs of mappings in effect
+          j6(*old(state)) ==> j6(*state),
+          //@ C01 C02 | inclusion invariant J (every held output key is justified by what is pressed)
           none_needs(state.active_mappings@, i + 1, k),
         decreases i + 1
       {
@@ -673,19 +807,29 @@ fn release_absorbed_keys(state: &mut State) -> (events: Vec<Event>)
     
     for i in it2: (0 .. state.pass_through_keys.len()).rev()
       invariant_except_break
+        //@  | frame / auxiliary
         it2.seq().len() == state.pass_through_keys@.len(),
         forall|j: int| 0 <= j < it2.seq().len() ==> it2.seq()[j] == it2.seq().len() - 1 - j,
         forall|j: int| state.pass_through_keys@.len() - it2.index@ <= j < state.pass_through_keys@.len() ==> #[trigger] state.pass_through_keys@[j] != k,
       invariant
+        //@ C01 C02 | inclusion invariant J (every held output key is justified by what is pressed)
         rak_inv(*state, *old(state), h0, events@, done0),
         j2(*old(state)) ==> j2(*state),
         j3(*old(state)) ==> j3(*state),
-        j4(*old(state)) ==> j4(*state), j6(*old(state)) ==> j6(*state),
-      j4(*old(state)) ==> j4(*state), j6(*old(state)) ==> j6(*state),
+        //@ C02 | (d) trigger keys of mappings in effect are consumed (not passed through)
+        j4(*old(state)) ==> j4(*state),
+        //@ C05 | a release lifts only the key itself or outputs owned by its mappings; pass-through keys are not outputs of mappings in effect
+        j6(*old(state)) ==> j6(*state),
+        //@ C02 | (d) trigger keys of mappings in effect are consumed (not passed through)
+        j4(*old(state)) ==> j4(*state),
+        //@ C05 | a release lifts only the key itself or outputs owned by its mappings; pass-through keys are not outputs of mappings in effect
+        j6(*old(state)) ==> j6(*state),
+        //@ C01 C02 | inclusion invariant J (every held output key is justified by what is pressed)
         none_needs(state.active_mappings@, 0, k),
       ensures
+        //@  | frame / auxiliary
         !state.pass_through_keys@.contains(k),
-    {
+      { //@ | body
       if state.pass_through_keys[i] == k {
         let ghost e0 = events@;
         let ghost pt0 = state.pass_through_keys@;
@@ -707,13 +851,22 @@ fn release_absorbed_keys(state: &mut State) -> (events: Vec<Event>)
     let ghost ipb = state.input_pressed_keys@;
     let mut __i: usize = 0; while __i < state.input_pressed_keys.len()
         invariant
+          //@ C01 C02 C09 | effect of the call on the list of keys considered pressed
           __i <= state.input_pressed_keys@.len(),
-          rak_inv(*state, *old(state), h0, events@, done1), done1.contains(k),
+          //@ C01 C02 | inclusion invariant J (every held output key is justified by what is pressed)
+          rak_inv(*state, *old(state), h0, events@, done1),
+          //@  | frame / auxiliary
+          done1.contains(k),
           !state.pass_through_keys@.contains(k),
+          //@ C01 C02 | inclusion invariant J (every held output key is justified by what is pressed)
           none_needs(state.active_mappings@, 0, k),
           j2(*old(state)) ==> sub(state.pass_through_keys@, ipb),
           j3(*old(state)) ==> from_in(state.active_mappings@, state.active_mappings@.len() as int, ipb),
-          j4(*old(state)) ==> j4(*state), j6(*old(state)) ==> j6(*state),
+          //@ C02 | (d) trigger keys of mappings in effect are consumed (not passed through)
+          j4(*old(state)) ==> j4(*state),
+          //@ C05 | a release lifts only the key itself or outputs owned by its mappings; pass-through keys are not outputs of mappings in effect
+          j6(*old(state)) ==> j6(*state),
+          //@ C01 C02 C09 | effect of the call on the list of keys considered pressed
           forall|x: KeyCode| #[trigger] ipb.contains(x) && x != k ==> state.input_pressed_keys@.contains(x),
           forall|j: int| 0 <= j < __i ==> #[trigger] state.input_pressed_keys@[j] != k,
         decreases state.input_pressed_keys.len() - __i
@@ -742,31 +895,46 @@ fn release_absorbed_keys(state: &mut State) -> (events: Vec<Event>)
   events
 }
 
+//@ C01 C02 C07 C09 C14 C19 | default: fn release_all_action_keys
 fn release_all_action_keys(state: &mut State) -> (evs: Vec<Event>)
-  requires wf(*old(state))
-  ensures wf(*final(state)),
+  requires
+    //@ C19 | bookkeeping equals the fold of the emitted events; no redundant press or release
+    wf(*old(state)),
+  ensures
+    //@ C19 | bookkeeping equals the fold of the emitted events; no redundant press or release
+    wf(*final(state)),
     apply(held(*old(state)), evs@) == Some(held(*final(state))),
+    //@ C07 | after a no-repeat mapping fires only modifiers are held
     forall|k: KeyCode| held(*final(state)).contains(k) ==> is_mod(k),
     forall|k: KeyCode| held(*old(state)).contains(k) && is_mod(k) ==> held(*final(state)).contains(k),
+    //@ C01 C02 C09 | effect of the call on the list of keys considered pressed
     final(state).input_pressed_keys@ == old(state).input_pressed_keys@,
+    //@  | frame / auxiliary
     final(state).active_mappings@ == old(state).active_mappings@,
     sub(final(state).mapped_output_keys@, old(state).mapped_output_keys@),
     sub(final(state).pass_through_keys@, old(state).pass_through_keys@),
-{
+  { //@ | body
   let mut to_release: Vec<KeyCode> = Vec::new();
   let ghost pt_old = old(state).pass_through_keys@.to_set();
   let ghost mo_old = old(state).mapped_output_keys@.to_set();
   
   let mut __i: usize = 0; while __i < state.pass_through_keys.len() 
       invariant
+        //@  | frame / auxiliary
         __i <= state.pass_through_keys.len(),
         state.mapped_output_keys@ == old(state).mapped_output_keys@,
-        state.input_pressed_keys@ == old(state).input_pressed_keys@, state.active_mappings@ == old(state).active_mappings@,
+        //@ C01 C02 C09 | effect of the call on the list of keys considered pressed
+        state.input_pressed_keys@ == old(state).input_pressed_keys@,
+        //@  | frame / auxiliary
+        state.active_mappings@ == old(state).active_mappings@,
+        //@ C19 | bookkeeping equals the fold of the emitted events; no redundant press or release
         state.pass_through_keys@.no_duplicates(),
         to_release@.no_duplicates(),
         to_release@.to_set().disjoint(state.pass_through_keys@.to_set()),
+        //@  | frame / auxiliary
         to_release@.to_set().union(state.pass_through_keys@.to_set()) =~= pt_old,
         all_mod_prefix(state.pass_through_keys@, __i as int),
+        //@ C07 | after a no-repeat mapping fires only modifiers are held
         forall|k: KeyCode| #[trigger] to_release@.to_set().contains(k) ==> !is_mod(k),
       decreases state.pass_through_keys.len() - __i
     { let ghost tr0 = to_release@; let ghost pt0 = state.pass_through_keys@;
@@ -802,17 +970,27 @@ fn release_all_action_keys(state: &mut State) -> (evs: Vec<Event>)
   
   let mut __i: usize = 0; while __i < state.mapped_output_keys.len() 
       invariant
+        //@  | frame / auxiliary
         __i <= state.mapped_output_keys.len(),
         state.pass_through_keys@ == pt1,
-        state.input_pressed_keys@ == old(state).input_pressed_keys@, state.active_mappings@ == old(state).active_mappings@,
-        mo_old == old(state).mapped_output_keys@.to_set(), state.mapped_output_keys@.to_set().subset_of(mo_old),
+        //@ C01 C02 C09 | effect of the call on the list of keys considered pressed
+        state.input_pressed_keys@ == old(state).input_pressed_keys@,
+        //@  | frame / auxiliary
+        state.active_mappings@ == old(state).active_mappings@,
+        mo_old == old(state).mapped_output_keys@.to_set(),
+        state.mapped_output_keys@.to_set().subset_of(mo_old),
+        //@ C19 | bookkeeping equals the fold of the emitted events; no redundant press or release
         state.mapped_output_keys@.no_duplicates(),
         to_release@.no_duplicates(),
         to_release@.to_set().disjoint(state.mapped_output_keys@.to_set()),
+        //@  | frame / auxiliary
         to_release@.to_set().union(state.mapped_output_keys@.to_set()) =~= tr1.union(mo_old),
+        //@ C19 | bookkeeping equals the fold of the emitted events; no redundant press or release
         tr1.disjoint(mo_old),
+        //@  | frame / auxiliary
         tr1.subset_of(to_release@.to_set()),
         all_mod_prefix(state.mapped_output_keys@, __i as int),
+        //@ C07 | after a no-repeat mapping fires only modifiers are held
         forall|k: KeyCode| #[trigger] to_release@.to_set().contains(k) ==> !is_mod(k),
       decreases state.mapped_output_keys.len() - __i
     { let ghost tr0 = to_release@; let ghost mo0 = state.mapped_output_keys@;
@@ -874,23 +1052,46 @@ fn release_all_action_keys(state: &mut State) -> (evs: Vec<Event>)
   to_release.iter().map(|k: &KeyCode| -> (e: Event) ensures e == Event::Released(*k) { Released(*k) }).collect()
 }
 
+//@ C01 C02 C03 C05 C07 C08 C09 C14 C19 | default: fn add_new_mapping
 fn add_new_mapping(state: &mut State, new_key: &KeyCode, m: &Mapping) -> (res: StepResult)
-  requires wf(*old(state)), j1(*old(state)), m.from@.len() >= 1, nonempty_from(old(state).active_mappings@)
-  ensures wf(*final(state)), j1(*final(state)), nonempty_from(final(state).active_mappings@),
+  requires
+    //@ C19 | bookkeeping equals the fold of the emitted events; no redundant press or release
+    wf(*old(state)),
+    //@ C01 C02 | inclusion invariant J (every held output key is justified by what is pressed)
+    j1(*old(state)),
+    //@  | frame / auxiliary
+    m.from@.len() >= 1,
+    //@ C01 C02 | inclusion invariant J (every held output key is justified by what is pressed)
+    nonempty_from(old(state).active_mappings@),
+  ensures
+    //@ C19 | bookkeeping equals the fold of the emitted events; no redundant press or release
+    wf(*final(state)),
+    //@ C01 C02 | inclusion invariant J (every held output key is justified by what is pressed)
+    j1(*final(state)),
+    nonempty_from(final(state).active_mappings@),
     j2(*old(state)) ==> j2(*final(state)),
+    //@ C02 | (d) trigger keys of mappings in effect are consumed (not passed through)
     j4(*old(state)) ==> j4(*final(state)),
+    //@ C05 | a release lifts only the key itself or outputs owned by its mappings; pass-through keys are not outputs of mappings in effect
     j6(*old(state)) ==> j6(*final(state)),
+    //@ C01 C02 | inclusion invariant J (every held output key is justified by what is pressed)
     j3(*old(state)) ==> from_in(final(state).active_mappings@, final(state).active_mappings@.len() - 1, final(state).input_pressed_keys@),
+    //@ C03 C08 | firing specification (support test, grouping of the layout by final trigger key)
     final(state).active_mappings@.len() >= 1 && final(state).active_mappings@.last().from@ == m.from@ && mview(final(state).active_mappings@.last()) == mview(*m),
+    //@ C09 | repeat request
     repeat_matches(m.repeat, res.repeat),
+    //@ C01 C02 C09 | effect of the call on the list of keys considered pressed
     sub(final(state).input_pressed_keys@, old(state).input_pressed_keys@),
     forall|x: KeyCode| #[trigger] old(state).input_pressed_keys@.contains(x) && (!old(state).mapped_absorbed_keys@.contains(x) || old(state).absorbing_trigger == Some(*new_key)) ==> final(state).input_pressed_keys@.contains(x),
+    //@ C19 | bookkeeping equals the fold of the emitted events; no redundant press or release
     apply(held(*old(state)), res.events@) == Some(held(*final(state))),
+    //@ C07 | after a no-repeat mapping fires only modifiers are held
     !(m.repeat is Normal) ==> forall|k: KeyCode| held(*final(state)).contains(k) ==> is_mod(k),
+    //@ C09 | repeat request
     (m.repeat is Special) ==> res.repeat is Repeating,
     !(m.repeat is Special) ==> res.repeat is Disabled,
     match (m.repeat, res.repeat) { (Repeat::Special { keys, delay_ms, interval_ms }, ResultingRepeat::Repeating { keys: k2, delay_ms: d2, interval_ms: i2 }) => keys@ == k2@ && delay_ms == d2 && interval_ms == i2, _ => true },
-{
+  { //@ | body
   let mut events: Vec<Event> = Vec::new();
   let ghost nk0 = *new_key;
   let ghost h0 = held(*old(state));
@@ -920,10 +1121,14 @@ fn add_new_mapping(state: &mut State, new_key: &KeyCode, m: &Mapping) -> (res: S
   
   let mut __i: usize = 0; while __i < pass_through_keys.len()
     invariant
+      //@  | frame / auxiliary
       __i <= pass_through_keys@.len(),
-      pass_through_keys@.no_duplicates(), mapped_output_keys@.no_duplicates(),
+      //@ C19 | bookkeeping equals the fold of the emitted events; no redundant press or release
+      pass_through_keys@.no_duplicates(),
+      mapped_output_keys@.no_duplicates(),
       pass_through_keys@.to_set().disjoint(mapped_output_keys@.to_set()),
       apply(h0, events@) == Some(pass_through_keys@.to_set().union(mapped_output_keys@.to_set())),
+      //@  | frame / auxiliary
       forall|x: KeyCode| #[trigger] mapped_output_keys@.contains(x) ==> mo_s1.contains(x) || m.to@.contains(x),
       sub(pass_through_keys@, pt_s1),
       forall|j: int| 0 <= j < __i ==> !m.from@.contains(#[trigger] pass_through_keys@[j]) && !m.to@.contains(pass_through_keys@[j]),
@@ -959,9 +1164,21 @@ fn add_new_mapping(state: &mut State, new_key: &KeyCode, m: &Mapping) -> (res: S
     assert(nonempty_from(state.active_mappings@));
     assert((j2(*old(state)) ==> j2(*state)) && (j3(*old(state)) ==> j3(*state)) && (j4(*old(state)) ==> j4(*state)) && (j6(*old(state)) ==> j6(*state)) && sub(state.input_pressed_keys@, old(state).input_pressed_keys@) && (forall|x: KeyCode| #[trigger] old(state).input_pressed_keys@.contains(x) && (!old(state).mapped_absorbed_keys@.contains(x) || old(state).absorbing_trigger == Some(nk0)) ==> state.input_pressed_keys@.contains(x))); }
   for new_key in it: &m.to
-    invariant wf(*state), apply(h0, events@) == Some(held(*state)), jx(*state, m.to@), nonempty_from(state.active_mappings@), (forall|x: KeyCode| #[trigger] state.pass_through_keys@.contains(x) ==> !m.from@.contains(x) && !m.to@.contains(x)), (j2(*old(state)) ==> j2(*state)) && (j3(*old(state)) ==> j3(*state)) && (j4(*old(state)) ==> j4(*state)) && (j6(*old(state)) ==> j6(*state)) && sub(state.input_pressed_keys@, old(state).input_pressed_keys@) && (forall|x: KeyCode| #[trigger] old(state).input_pressed_keys@.contains(x) && (!old(state).mapped_absorbed_keys@.contains(x) || old(state).absorbing_trigger == Some(nk0)) ==> state.input_pressed_keys@.contains(x)),
-      it.seq().len() == m.to@.len(), forall|j: int| 0 <= j < m.to@.len() ==> *it.seq()[j] == m.to@[j],
-  {
+    invariant
+      //@ C19 | bookkeeping equals the fold of the emitted events; no redundant press or release
+      wf(*state),
+      apply(h0, events@) == Some(held(*state)),
+      //@ C01 C02 | inclusion invariant J (every held output key is justified by what is pressed)
+      jx(*state, m.to@),
+      nonempty_from(state.active_mappings@),
+      //@  | frame / auxiliary
+      (forall|x: KeyCode| #[trigger] state.pass_through_keys@.contains(x) ==> !m.from@.contains(x) && !m.to@.contains(x)),
+      //@ C05 | a release lifts only the key itself or outputs owned by its mappings; pass-through keys are not outputs of mappings in effect
+      (j2(*old(state)) ==> j2(*state)) && (j3(*old(state)) ==> j3(*state)) && (j4(*old(state)) ==> j4(*state)) && (j6(*old(state)) ==> j6(*state)) && sub(state.input_pressed_keys@, old(state).input_pressed_keys@) && (forall|x: KeyCode| #[trigger] old(state).input_pressed_keys@.contains(x) && (!old(state).mapped_absorbed_keys@.contains(x) || old(state).absorbing_trigger == Some(nk0)) ==> state.input_pressed_keys@.contains(x)),
+      //@  | frame / auxiliary
+      it.seq().len() == m.to@.len(),
+      forall|j: int| 0 <= j < m.to@.len() ==> *it.seq()[j] == m.to@[j],
+    { //@ | body
     proof { assert(*new_key == m.to@[it.index@ as int]); assert(m.to@.contains(*new_key)); }
     let ghost am0 = state.active_mappings@; let ghost ip_s = state.input_pressed_keys@;
     let ghost e0 = events@; let ghost pt0 = state.pass_through_keys@; let ghost mo0 = state.mapped_output_keys@;
@@ -981,8 +1198,15 @@ fn add_new_mapping(state: &mut State, new_key: &KeyCode, m: &Mapping) -> (res: S
           proof { assert(e1.drop_last() =~= e0); assert(events@.drop_last() =~= e1); }
           let mut __i: usize = 0; while __i < state.pass_through_keys.len()
             invariant
+              //@  | frame / auxiliary
               __i <= state.pass_through_keys@.len(),
-              state.mapped_output_keys@ == mo0, state.active_mappings@ == am0, state.pass_through_keys@.no_duplicates(), state.input_pressed_keys@ == ip_s,
+              state.mapped_output_keys@ == mo0,
+              state.active_mappings@ == am0,
+              //@ C19 | bookkeeping equals the fold of the emitted events; no redundant press or release
+              state.pass_through_keys@.no_duplicates(),
+              //@ C01 C02 C09 | effect of the call on the list of keys considered pressed
+              state.input_pressed_keys@ == ip_s,
+              //@  | frame / auxiliary
               state.pass_through_keys@.to_set().subset_of(pt0.to_set()),
               pt0.to_set().remove(*new_key).subset_of(state.pass_through_keys@.to_set()),
               forall|j: int| 0 <= j < __i ==> #[trigger] state.pass_through_keys@[j] != *new_key,
@@ -1021,8 +1245,18 @@ fn add_new_mapping(state: &mut State, new_key: &KeyCode, m: &Mapping) -> (res: S
   }
   
   for absorbed_key in it: &m.absorbing
-    invariant wf(*state), apply(h0, events@) == Some(held(*state)), jx(*state, m.to@), nonempty_from(state.active_mappings@), (forall|x: KeyCode| #[trigger] state.pass_through_keys@.contains(x) ==> !m.from@.contains(x) && !m.to@.contains(x)), (j2(*old(state)) ==> j2(*state)) && (j3(*old(state)) ==> j3(*state)) && (j4(*old(state)) ==> j4(*state)) && (j6(*old(state)) ==> j6(*state)) && sub(state.input_pressed_keys@, old(state).input_pressed_keys@) && (forall|x: KeyCode| #[trigger] old(state).input_pressed_keys@.contains(x) && (!old(state).mapped_absorbed_keys@.contains(x) || old(state).absorbing_trigger == Some(nk0)) ==> state.input_pressed_keys@.contains(x)),
-  {
+    invariant
+      //@ C19 | bookkeeping equals the fold of the emitted events; no redundant press or release
+      wf(*state),
+      apply(h0, events@) == Some(held(*state)),
+      //@ C01 C02 | inclusion invariant J (every held output key is justified by what is pressed)
+      jx(*state, m.to@),
+      nonempty_from(state.active_mappings@),
+      //@  | frame / auxiliary
+      (forall|x: KeyCode| #[trigger] state.pass_through_keys@.contains(x) ==> !m.from@.contains(x) && !m.to@.contains(x)),
+      //@ C05 | a release lifts only the key itself or outputs owned by its mappings; pass-through keys are not outputs of mappings in effect
+      (j2(*old(state)) ==> j2(*state)) && (j3(*old(state)) ==> j3(*state)) && (j4(*old(state)) ==> j4(*state)) && (j6(*old(state)) ==> j6(*state)) && sub(state.input_pressed_keys@, old(state).input_pressed_keys@) && (forall|x: KeyCode| #[trigger] old(state).input_pressed_keys@.contains(x) && (!old(state).mapped_absorbed_keys@.contains(x) || old(state).absorbing_trigger == Some(nk0)) ==> state.input_pressed_keys@.contains(x)),
+    { //@ | body
     if !state.mapped_absorbed_keys.contains(absorbed_key) {
       state.mapped_absorbed_keys.push(*absorbed_key);
     }
@@ -1120,10 +1354,15 @@ pub open spec fn layout_ok(l: Layout) -> bool {
   forall|i: int| 0 <= i < l.mappings@.len() ==> mapping_ok(#[trigger] l.mappings@[i])
 }
 
+//@ C14 | default: fn final_key
 fn final_key(trigger: &Vec<KeyCode>) -> (r: KeyCode)
-  requires trigger@.len() >= 1
-  ensures r == trigger@[trigger@.len() - 1]
-{
+  requires
+    //@  | frame / auxiliary
+    trigger@.len() >= 1,
+  ensures
+    //@  | frame / auxiliary
+    r == trigger@[trigger@.len() - 1],
+  { //@ | body
   return trigger[trigger.len() - 1];
 }
 
@@ -1131,15 +1370,19 @@ pub open spec fn supported_spec(trigger: Seq<KeyCode>, pressed: Seq<KeyCode>, ab
   forall|j: int| 0 <= j < trigger.len() ==> ((pressed.contains(#[trigger] trigger[j]) && !absorbed.contains(trigger[j])) || trigger[j] == nk)
 }
 
+//@ C03 C08 C14 | default: fn is_supported
 fn is_supported(trigger: &Vec<KeyCode>, pressed_keys: &Vec<KeyCode>, absorbed_keys: &Vec<KeyCode>, new_key: &KeyCode) -> (r: bool)
-  ensures r == supported_spec(trigger@, pressed_keys@, absorbed_keys@, *new_key)
-{
+  ensures
+    //@ C03 C08 | firing specification (support test, grouping of the layout by final trigger key)
+    r == supported_spec(trigger@, pressed_keys@, absorbed_keys@, *new_key),
+  { //@ | body
   for k in it: trigger
     invariant
+      //@  | frame / auxiliary
       it.seq().len() == trigger@.len(),
       forall|j: int| 0 <= j < trigger@.len() ==> *it.seq()[j] == trigger@[j],
       forall|j: int| 0 <= j < it.index@ ==> ((pressed_keys@.contains(#[trigger] trigger@[j]) && !absorbed_keys@.contains(trigger@[j])) || trigger@[j] == *new_key),
-  {
+    { //@ | body
     if !((pressed_keys.contains(&k) && !absorbed_keys.contains(&k)) || k == new_key) {
       return false;
     }
@@ -1147,25 +1390,38 @@ fn is_supported(trigger: &Vec<KeyCode>, pressed_keys: &Vec<KeyCode>, absorbed_ke
   return true;
 }
 
+//@ C03 C08 C14 C19 | default: fn make_hashed_layout
 fn make_hashed_layout(layout: &Layout) -> (h: HashedLayout)
-  requires layout_ok(*layout)
-  ensures hl_ok(h)
-{
+  requires
+    //@  | frame / auxiliary
+    layout_ok(*layout),
+  ensures
+    //@ C03 C08 | firing specification (support test, grouping of the layout by final trigger key)
+    hl_ok(h),
+  { //@ | body
   broadcast use vstd::std_specs::hash::group_hash_axioms;
   let mut mappings: HashMap<KeyCode, Vec<Mapping>> = HashMap::new();
 
   for mapping in it: &layout.mappings
-    invariant layout_ok(*layout),
+    invariant
+      //@  | frame / auxiliary
+      layout_ok(*layout),
       it.seq().len() == layout.mappings@.len(),
       forall|j: int| 0 <= j < layout.mappings@.len() ==> *it.seq()[j] == layout.mappings@[j],
-  {
+    { //@ | body
     assert(mapping_ok(layout.mappings@[it.index@ as int]));
     for i in 0 .. mapping.from.len()
-      invariant mapping.from@.no_duplicates(),
-    {
+      invariant
+        //@ C19 | bookkeeping equals the fold of the emitted events; no redundant press or release
+        mapping.from@.no_duplicates(),
+      { //@ | body
       for j in i+1 .. mapping.from.len()
-        invariant mapping.from@.no_duplicates(), i < mapping.from@.len(),
-      {
+        invariant
+          //@ C19 | bookkeeping equals the fold of the emitted events; no redundant press or release
+          mapping.from@.no_duplicates(),
+          //@  | frame / auxiliary
+          i < mapping.from@.len(),
+        { //@ | body
         if mapping.from[i] == mapping.from[j] {
           panic!("Duplicate key in from");
         }
@@ -1173,11 +1429,17 @@ fn make_hashed_layout(layout: &Layout) -> (h: HashedLayout)
     }
     
     for i in 0 .. mapping.to.len()
-      invariant mapping.to@.no_duplicates(),
-    {
+      invariant
+        //@ C19 | bookkeeping equals the fold of the emitted events; no redundant press or release
+        mapping.to@.no_duplicates(),
+      { //@ | body
       for j in i+1 .. mapping.to.len()
-        invariant mapping.to@.no_duplicates(), i < mapping.to@.len(),
-      {
+        invariant
+          //@ C19 | bookkeeping equals the fold of the emitted events; no redundant press or release
+          mapping.to@.no_duplicates(),
+          //@  | frame / auxiliary
+          i < mapping.to@.len(),
+        { //@ | body
         if mapping.to[i] == mapping.to[j] {
           panic!("Duplicate key in to");
         }
@@ -1186,10 +1448,15 @@ fn make_hashed_layout(layout: &Layout) -> (h: HashedLayout)
   }
   
   for mapping in it: &layout.mappings
-    invariant layout_ok(*layout), hm_ok(mappings@),
+    invariant
+      //@  | frame / auxiliary
+      layout_ok(*layout),
+      //@ C03 C08 | firing specification (support test, grouping of the layout by final trigger key)
+      hm_ok(mappings@),
+      //@  | frame / auxiliary
       it.seq().len() == layout.mappings@.len(),
       forall|j: int| 0 <= j < layout.mappings@.len() ==> *it.seq()[j] == layout.mappings@[j],
-  {
+    { //@ | body
     assert(mapping_ok(layout.mappings@[it.index@ as int]));
     proof { axiom_keycode_key_model(); assert(builds_valid_hashers::<std::collections::hash_map::RandomState>()); }
     let ghost hm0 = mappings@;
@@ -1220,10 +1487,15 @@ fn make_hashed_layout(layout: &Layout) -> (h: HashedLayout)
   HashedLayout { mappings }
 }
 
+//@ C09 C14 | default: impl StepResult
 impl StepResult {
   fn empty() -> (r: StepResult)
-    ensures r.events@.len() == 0, r.repeat is Disabled
-  {
+    ensures
+      //@  | frame / auxiliary
+      r.events@.len() == 0,
+      //@ C09 | repeat request
+      r.repeat is Disabled,
+    { //@ | body
     StepResult {
       events: vec![],
       repeat: ResultingRepeat::Disabled
@@ -1231,23 +1503,59 @@ impl StepResult {
   }
   
   fn append(&mut self, mut other: StepResult)
-    ensures final(self).events@ == old(self).events@ + other.events@, final(self).repeat == other.repeat
-  {
+    ensures
+      //@  | frame / auxiliary
+      final(self).events@ == old(self).events@ + other.events@,
+      final(self).repeat == other.repeat,
+    { //@ | body
     self.repeat = other.repeat;
     self.events.append(&mut other.events);
   }
 }
 
+//@ C01 C02 C05 C07 C09 C14 C19 | default: fn newly_release
 fn newly_release(mapper: &mut Mapper, k: KeyCode) -> (res: StepResult)
-  requires wf(old(mapper).state), j1(old(mapper).state), j2(old(mapper).state), j3(old(mapper).state), j4(old(mapper).state), j6(old(mapper).state), nonempty_from(old(mapper).state.active_mappings@)
-  ensures wf(final(mapper).state), j1(final(mapper).state), j2(final(mapper).state), j3(final(mapper).state), j4(final(mapper).state), j6(final(mapper).state), nonempty_from(final(mapper).state.active_mappings@), final(mapper).layout == old(mapper).layout,
+  requires
+    //@ C19 | bookkeeping equals the fold of the emitted events; no redundant press or release
+    wf(old(mapper).state),
+    //@ C01 C02 | inclusion invariant J (every held output key is justified by what is pressed)
+    j1(old(mapper).state),
+    j2(old(mapper).state),
+    j3(old(mapper).state),
+    //@ C02 | (d) trigger keys of mappings in effect are consumed (not passed through)
+    j4(old(mapper).state),
+    //@ C05 | a release lifts only the key itself or outputs owned by its mappings; pass-through keys are not outputs of mappings in effect
+    j6(old(mapper).state),
+    //@ C01 C02 | inclusion invariant J (every held output key is justified by what is pressed)
+    nonempty_from(old(mapper).state.active_mappings@),
+  ensures
+    //@ C19 | bookkeeping equals the fold of the emitted events; no redundant press or release
+    wf(final(mapper).state),
+    //@ C01 C02 | inclusion invariant J (every held output key is justified by what is pressed)
+    j1(final(mapper).state),
+    j2(final(mapper).state),
+    j3(final(mapper).state),
+    //@ C02 | (d) trigger keys of mappings in effect are consumed (not passed through)
+    j4(final(mapper).state),
+    //@ C05 | a release lifts only the key itself or outputs owned by its mappings; pass-through keys are not outputs of mappings in effect
+    j6(final(mapper).state),
+    //@ C01 C02 | inclusion invariant J (every held output key is justified by what is pressed)
+    nonempty_from(final(mapper).state.active_mappings@),
+    //@  | frame / auxiliary
+    final(mapper).layout == old(mapper).layout,
+    //@ C05 | a release lifts only the key itself or outputs owned by its mappings; pass-through keys are not outputs of mappings in effect
     c05_rel(res.events@, old(mapper).state.active_mappings@, final(mapper).state.active_mappings@, k),
+    //@ C01 C02 C09 | effect of the call on the list of keys considered pressed
     sub(final(mapper).state.input_pressed_keys@, old(mapper).state.input_pressed_keys@),
+    //@ C19 | bookkeeping equals the fold of the emitted events; no redundant press or release
     apply(held(old(mapper).state), res.events@) == Some(held(final(mapper).state)),
+    //@ C02 C07 | release paths emit only releases
     all_released(res.events@),
+    //@ C09 | repeat request
     res.repeat is Disabled,
+    //@ C01 C02 C09 | effect of the call on the list of keys considered pressed
     !final(mapper).state.input_pressed_keys@.contains(k),
-{
+  { //@ | body
   let state = &mut mapper.state;
   
   let mut events: Vec<Event> = Vec::new();
@@ -1258,11 +1566,32 @@ fn newly_release(mapper: &mut Mapper, k: KeyCode) -> (res: StepResult)
   let mut i: isize = state.active_mappings.len() as isize - 1;
   while i >= 0
     invariant
+      //@  | frame / auxiliary
       -1 <= i < state.active_mappings@.len(),
-      wf(*state), apply(h0, events@) == Some(held(*state)), all_released(events@), j1(*state), j2(*state), j3(*state), j4(*state),
+      //@ C19 | bookkeeping equals the fold of the emitted events; no redundant press or release
+      wf(*state),
+      apply(h0, events@) == Some(held(*state)),
+      //@ C02 C07 | release paths emit only releases
+      all_released(events@),
+      //@ C01 C02 | inclusion invariant J (every held output key is justified by what is pressed)
+      j1(*state),
+      j2(*state),
+      j3(*state),
+      //@ C02 | (d) trigger keys of mappings in effect are consumed (not passed through)
+      j4(*state),
+      //@ C01 C02 C09 | effect of the call on the list of keys considered pressed
       state.input_pressed_keys@ == old(mapper).state.input_pressed_keys@,
-      none_needs(state.active_mappings@, i + 1, k), nonempty_from(state.active_mappings@), j6(*state),
-      amo == old(mapper).state.active_mappings@, am_sub(state.active_mappings@, state.active_mappings@.len() as int, amo), c05_rel(events@, amo, state.active_mappings@, k),
+      //@ C01 C02 | inclusion invariant J (every held output key is justified by what is pressed)
+      none_needs(state.active_mappings@, i + 1, k),
+      nonempty_from(state.active_mappings@),
+      //@ C05 | a release lifts only the key itself or outputs owned by its mappings; pass-through keys are not outputs of mappings in effect
+      j6(*state),
+      //@  | frame / auxiliary
+      amo == old(mapper).state.active_mappings@,
+      //@ C01 C02 | inclusion invariant J (every held output key is justified by what is pressed)
+      am_sub(state.active_mappings@, state.active_mappings@.len() as int, amo),
+      //@ C05 | a release lifts only the key itself or outputs owned by its mappings; pass-through keys are not outputs of mappings in effect
+      c05_rel(events@, amo, state.active_mappings@, k),
     decreases i + 1
   {
     if fails_when_released(&state.active_mappings[i as usize].from, &k) {
@@ -1297,16 +1626,34 @@ fn newly_release(mapper: &mut Mapper, k: KeyCode) -> (res: StepResult)
   
   for i in it2: (0 .. state.pass_through_keys.len()).rev()
     invariant_except_break
+      //@  | frame / auxiliary
       it2.seq().len() == state.pass_through_keys@.len(),
       forall|j: int| 0 <= j < it2.seq().len() ==> it2.seq()[j] == it2.seq().len() - 1 - j,
       forall|j: int| state.pass_through_keys@.len() - it2.index@ <= j < state.pass_through_keys@.len() ==> #[trigger] state.pass_through_keys@[j] != k,
     invariant
-      wf(*state), apply(h0, events@) == Some(held(*state)), all_released(events@), j1(*state), j2(*state), j3(*state), j4(*state),
+      //@ C19 | bookkeeping equals the fold of the emitted events; no redundant press or release
+      wf(*state),
+      apply(h0, events@) == Some(held(*state)),
+      //@ C02 C07 | release paths emit only releases
+      all_released(events@),
+      //@ C01 C02 | inclusion invariant J (every held output key is justified by what is pressed)
+      j1(*state),
+      j2(*state),
+      j3(*state),
+      //@ C02 | (d) trigger keys of mappings in effect are consumed (not passed through)
+      j4(*state),
+      //@ C01 C02 C09 | effect of the call on the list of keys considered pressed
       state.input_pressed_keys@ == old(mapper).state.input_pressed_keys@,
-      none_needs(state.active_mappings@, 0, k), nonempty_from(state.active_mappings@), j6(*state), c05_rel(events@, amo, state.active_mappings@, k),
+      //@ C01 C02 | inclusion invariant J (every held output key is justified by what is pressed)
+      none_needs(state.active_mappings@, 0, k),
+      nonempty_from(state.active_mappings@),
+      //@ C05 | a release lifts only the key itself or outputs owned by its mappings; pass-through keys are not outputs of mappings in effect
+      j6(*state),
+      c05_rel(events@, amo, state.active_mappings@, k),
     ensures
+      //@  | frame / auxiliary
       !state.pass_through_keys@.contains(k),
-  {
+    { //@ | body
     if state.pass_through_keys[i] == k {
       let ghost e0 = events@;
       let ghost pt0 = state.pass_through_keys@; let ghost mo_s = state.mapped_output_keys@; let ghost am_s = state.active_mappings@;
@@ -1331,11 +1678,33 @@ fn newly_release(mapper: &mut Mapper, k: KeyCode) -> (res: StepResult)
   let ghost ipb = state.input_pressed_keys@;
   let mut __i: usize = 0; while __i < state.input_pressed_keys.len()
     invariant
+      //@ C01 C02 C09 | effect of the call on the list of keys considered pressed
       __i <= state.input_pressed_keys@.len(),
-      wf(*state), apply(h0, events@) == Some(held(*state)), all_released(events@), j1(*state), j4(*state),
-      ipb == old(mapper).state.input_pressed_keys@, sub(state.input_pressed_keys@, ipb),
-      !state.pass_through_keys@.contains(k), none_needs(state.active_mappings@, 0, k), nonempty_from(state.active_mappings@), j6(*state), c05_rel(events@, amo, state.active_mappings@, k),
-      sub(state.pass_through_keys@, ipb), from_in(state.active_mappings@, state.active_mappings@.len() as int, ipb),
+      //@ C19 | bookkeeping equals the fold of the emitted events; no redundant press or release
+      wf(*state),
+      apply(h0, events@) == Some(held(*state)),
+      //@ C02 C07 | release paths emit only releases
+      all_released(events@),
+      //@ C01 C02 | inclusion invariant J (every held output key is justified by what is pressed)
+      j1(*state),
+      //@ C02 | (d) trigger keys of mappings in effect are consumed (not passed through)
+      j4(*state),
+      //@ C01 C02 C09 | effect of the call on the list of keys considered pressed
+      ipb == old(mapper).state.input_pressed_keys@,
+      sub(state.input_pressed_keys@, ipb),
+      //@  | frame / auxiliary
+      !state.pass_through_keys@.contains(k),
+      //@ C01 C02 | inclusion invariant J (every held output key is justified by what is pressed)
+      none_needs(state.active_mappings@, 0, k),
+      nonempty_from(state.active_mappings@),
+      //@ C05 | a release lifts only the key itself or outputs owned by its mappings; pass-through keys are not outputs of mappings in effect
+      j6(*state),
+      c05_rel(events@, amo, state.active_mappings@, k),
+      //@  | frame / auxiliary
+      sub(state.pass_through_keys@, ipb),
+      //@ C01 C02 | inclusion invariant J (every held output key is justified by what is pressed)
+      from_in(state.active_mappings@, state.active_mappings@.len() as int, ipb),
+      //@ C01 C02 C09 | effect of the call on the list of keys considered pressed
       forall|x: KeyCode| #[trigger] ipb.contains(x) && x != k ==> state.input_pressed_keys@.contains(x),
       forall|j: int| 0 <= j < __i ==> #[trigger] state.input_pressed_keys@[j] != k,
     decreases state.input_pressed_keys@.len() - __i
@@ -1360,10 +1729,27 @@ fn newly_release(mapper: &mut Mapper, k: KeyCode) -> (res: StepResult)
   StepResult { events, repeat }
 }
 
+//@ C01 C02 C05 C09 C14 C19 | default: impl State
 impl State {
   fn init() -> (r: State)
-    ensures wf(r), j1(r), j2(r), j3(r), j4(r), j6(r), held(r) == Set::<KeyCode>::empty(), r.input_pressed_keys@.len() == 0, r.active_mappings@.len() == 0
-  {
+    ensures
+      //@ C19 | bookkeeping equals the fold of the emitted events; no redundant press or release
+      wf(r),
+      //@ C01 C02 | inclusion invariant J (every held output key is justified by what is pressed)
+      j1(r),
+      j2(r),
+      j3(r),
+      //@ C02 | (d) trigger keys of mappings in effect are consumed (not passed through)
+      j4(r),
+      //@ C05 | a release lifts only the key itself or outputs owned by its mappings; pass-through keys are not outputs of mappings in effect
+      j6(r),
+      //@  | frame / auxiliary
+      held(r) == Set::<KeyCode>::empty(),
+      //@ C01 C02 C09 | effect of the call on the list of keys considered pressed
+      r.input_pressed_keys@.len() == 0,
+      //@  | frame / auxiliary
+      r.active_mappings@.len() == 0,
+    { //@ | body
     proof { assert(Seq::<KeyCode>::empty().to_set() =~= Set::<KeyCode>::empty()); }
     return State {
       input_pressed_keys: Vec::new(),
@@ -1428,19 +1814,54 @@ proof fn lemma_press_ip(a: State, b: State, k: KeyCode)
   lemma_push_contains(a.input_pressed_keys@, k);
 }
 
+//@ C01 C02 C03 C05 C08 C09 C14 C19 | default: fn newly_press
 fn newly_press(mapper: &mut Mapper, k: KeyCode) -> (res: StepResult)
-  requires wf(old(mapper).state), j1(old(mapper).state), j2(old(mapper).state), j3(old(mapper).state), j4(old(mapper).state), j6(old(mapper).state), !old(mapper).state.input_pressed_keys@.contains(k),
-    nonempty_from(old(mapper).state.active_mappings@), hl_ok(old(mapper).layout),
-  ensures wf(final(mapper).state), j1(final(mapper).state), j2(final(mapper).state), j3(final(mapper).state), j4(final(mapper).state), j6(final(mapper).state), nonempty_from(final(mapper).state.active_mappings@), final(mapper).layout == old(mapper).layout,
+  requires
+    //@ C19 | bookkeeping equals the fold of the emitted events; no redundant press or release
+    wf(old(mapper).state),
+    //@ C01 C02 | inclusion invariant J (every held output key is justified by what is pressed)
+    j1(old(mapper).state),
+    j2(old(mapper).state),
+    j3(old(mapper).state),
+    //@ C02 | (d) trigger keys of mappings in effect are consumed (not passed through)
+    j4(old(mapper).state),
+    //@ C05 | a release lifts only the key itself or outputs owned by its mappings; pass-through keys are not outputs of mappings in effect
+    j6(old(mapper).state),
+    //@ C01 C02 C09 | effect of the call on the list of keys considered pressed
+    !old(mapper).state.input_pressed_keys@.contains(k),
+    //@ C01 C02 | inclusion invariant J (every held output key is justified by what is pressed)
+    nonempty_from(old(mapper).state.active_mappings@),
+    //@ C03 C08 | firing specification (support test, grouping of the layout by final trigger key)
+    hl_ok(old(mapper).layout),
+  ensures
+    //@ C19 | bookkeeping equals the fold of the emitted events; no redundant press or release
+    wf(final(mapper).state),
+    //@ C01 C02 | inclusion invariant J (every held output key is justified by what is pressed)
+    j1(final(mapper).state),
+    j2(final(mapper).state),
+    j3(final(mapper).state),
+    //@ C02 | (d) trigger keys of mappings in effect are consumed (not passed through)
+    j4(final(mapper).state),
+    //@ C05 | a release lifts only the key itself or outputs owned by its mappings; pass-through keys are not outputs of mappings in effect
+    j6(final(mapper).state),
+    //@ C01 C02 | inclusion invariant J (every held output key is justified by what is pressed)
+    nonempty_from(final(mapper).state.active_mappings@),
+    //@  | frame / auxiliary
+    final(mapper).layout == old(mapper).layout,
+    //@ C01 C02 C09 | effect of the call on the list of keys considered pressed
     forall|x: KeyCode| #[trigger] final(mapper).state.input_pressed_keys@.contains(x) ==> old(mapper).state.input_pressed_keys@.contains(x) || x == k,
+    //@ C19 | bookkeeping equals the fold of the emitted events; no redundant press or release
     apply(held(old(mapper).state), res.events@) == Some(held(final(mapper).state)),
+    //@ C01 C02 C09 | effect of the call on the list of keys considered pressed
     final(mapper).state.input_pressed_keys@.contains(k),
+    //@ C09 | repeat request
     !(res.repeat is NoChange),
+    //@ C03 C08 C09 | firing specification: the last-listed supported mapping of the group fires, with its repeat request
     forall|i: int| is_fired(group(old(mapper).layout, k), old(mapper).state, k, i) ==>
         final(mapper).state.active_mappings@.len() >= 1 && mview(final(mapper).state.active_mappings@.last()) == mview(#[trigger] group(old(mapper).layout, k)[i])
         && repeat_matches(group(old(mapper).layout, k)[i].repeat, res.repeat),
     none_fired(group(old(mapper).layout, k), old(mapper).state, k) ==> res.repeat is Disabled,
-{
+  { //@ | body
   hide(j4); hide(j6); hide(nonempty_from); hide(from_in); hide(am_sub); hide(sup);
   let mappings = &mapper.layout.mappings;
   let mut state = &mut mapper.state;
@@ -1452,9 +1873,14 @@ fn newly_press(mapper: &mut Mapper, k: KeyCode) -> (res: StepResult)
   
   let mut __i: usize = 0; while __i < state.mapped_absorbed_keys.len()
     invariant
+      //@  | frame / auxiliary
       __i <= state.mapped_absorbed_keys@.len(),
-      state.pass_through_keys@ == old(mapper).state.pass_through_keys@, state.mapped_output_keys@ == old(mapper).state.mapped_output_keys@,
-      state.active_mappings@ == old(mapper).state.active_mappings@, state.input_pressed_keys@ == old(mapper).state.input_pressed_keys@,
+      state.pass_through_keys@ == old(mapper).state.pass_through_keys@,
+      state.mapped_output_keys@ == old(mapper).state.mapped_output_keys@,
+      state.active_mappings@ == old(mapper).state.active_mappings@,
+      //@ C01 C02 C09 | effect of the call on the list of keys considered pressed
+      state.input_pressed_keys@ == old(mapper).state.input_pressed_keys@,
+      //@  | frame / auxiliary
       state.absorbing_trigger == old(mapper).state.absorbing_trigger,
       forall|x: KeyCode| #[trigger] state.mapped_absorbed_keys@.contains(x) ==> old(mapper).state.mapped_absorbed_keys@.contains(x),
       forall|x: KeyCode| #[trigger] old(mapper).state.mapped_absorbed_keys@.contains(x) && x != k ==> state.mapped_absorbed_keys@.contains(x),
@@ -1500,27 +1926,51 @@ fn newly_press(mapper: &mut Mapper, k: KeyCode) -> (res: StepResult)
     
     for mapping in it: mappings.iter().rev()
       invariant_except_break
+        //@  | frame / auxiliary
         !any_hit,
       invariant
-        should_absorb ==> absorbed_keys@ == ab1, !should_absorb ==> (absorbed_keys@.len() == 0 && at1 == Some(k)), should_absorb ==> at1 != Some(k),
-        g == mappings@, st0 == old(mapper).state, at1 == st0.absorbing_trigger,
+        //@  | frame / auxiliary
+        should_absorb ==> absorbed_keys@ == ab1,
+        !should_absorb ==> (absorbed_keys@.len() == 0 && at1 == Some(k)),
+        should_absorb ==> at1 != Some(k),
+        g == mappings@,
+        st0 == old(mapper).state,
+        at1 == st0.absorbing_trigger,
         forall|x: KeyCode| ab1.contains(x) <==> (st0.mapped_absorbed_keys@.contains(x) && x != k),
+        //@ C03 C08 | firing specification (support test, grouping of the layout by final trigger key)
         !any_hit ==> forall|j: int| mappings@.len() - it.index@ <= j < mappings@.len() ==> !sup(#[trigger] mappings@[j], st0, k),
+        //@ C03 C08 C09 | firing specification: the last-listed supported mapping of the group fires, with its repeat request
         any_hit ==> exists|i: int| is_fired(g, st0, k, i) && state.active_mappings@.len() >= 1 && mview(state.active_mappings@.last()) == mview(g[i]) && repeat_matches(g[i].repeat, res.repeat),
+        //@  | frame / auxiliary
         it.seq().len() == mappings@.len(),
         forall|j: int| 0 <= j < mappings@.len() ==> *it.seq()[j] == mappings@[mappings@.len() - 1 - j],
         forall|j: int| 0 <= j < mappings@.len() ==> (#[trigger] mappings@[j]).from@.len() >= 1,
+        //@ C01 C02 | inclusion invariant J (every held output key is justified by what is pressed)
         nonempty_from(state.active_mappings@),
-        j2(*state), j4(*state), j6(*state),
+        j2(*state),
+        //@ C02 | (d) trigger keys of mappings in effect are consumed (not passed through)
+        j4(*state),
+        //@ C05 | a release lifts only the key itself or outputs owned by its mappings; pass-through keys are not outputs of mappings in effect
+        j6(*state),
+        //@ C01 C02 | inclusion invariant J (every held output key is justified by what is pressed)
         !any_hit ==> j3(*state),
         any_hit ==> from_in(state.active_mappings@, state.active_mappings@.len() - 1, state.input_pressed_keys@) && state.active_mappings@.len() >= 1
                     && (forall|f: KeyCode| #[trigger] state.active_mappings@.last().from@.contains(f) ==> f == k || state.input_pressed_keys@.contains(f)),
+        //@ C01 C02 C09 | effect of the call on the list of keys considered pressed
         forall|x: KeyCode| #[trigger] state.input_pressed_keys@.contains(x) ==> old(mapper).state.input_pressed_keys@.contains(x),
+        //@ C09 | repeat request
         !any_hit ==> (state.pass_through_keys@ == old(mapper).state.pass_through_keys@ && state.mapped_output_keys@ == old(mapper).state.mapped_output_keys@ && state.active_mappings@ == old(mapper).state.active_mappings@ && state.input_pressed_keys@ == old(mapper).state.input_pressed_keys@ && state.mapped_absorbed_keys@ == ab1 && state.absorbing_trigger == at1 && res.events@.len() == 0 && res.repeat is Disabled),
-        wf(*state), apply(h0, res.events@) == Some(held(*state)), !(res.repeat is NoChange), j1(*state),
+        //@ C19 | bookkeeping equals the fold of the emitted events; no redundant press or release
+        wf(*state),
+        apply(h0, res.events@) == Some(held(*state)),
+        //@ C09 | repeat request
+        !(res.repeat is NoChange),
+        //@ C01 C02 | inclusion invariant J (every held output key is justified by what is pressed)
+        j1(*state),
       ensures
+        //@ C03 C08 | firing specification (support test, grouping of the layout by final trigger key)
         !any_hit ==> forall|j: int| 0 <= j < mappings@.len() ==> !sup(#[trigger] mappings@[j], st0, k),
-    {
+      { //@ | body
       proof { assert(*mapping == mappings@[mappings@.len() - 1 - it.index@]);
         assert(supported_spec(mapping.from@, st0.input_pressed_keys@, absorbed_keys@, k) <==> sup(*mapping, st0, k)) by {
           reveal(sup);
@@ -1556,14 +2006,31 @@ fn newly_press(mapper: &mut Mapper, k: KeyCode) -> (res: StepResult)
   if !any_hit {
     for m in it: &state.active_mappings
       invariant
+        //@ C09 | repeat request
         !any_hit ==> (state.pass_through_keys@ == old(mapper).state.pass_through_keys@ && state.mapped_output_keys@ == old(mapper).state.mapped_output_keys@ && state.active_mappings@ == old(mapper).state.active_mappings@ && state.input_pressed_keys@ == old(mapper).state.input_pressed_keys@ && state.mapped_absorbed_keys@ == ab1 && state.absorbing_trigger == at1 && res.events@.len() == 0 && res.repeat is Disabled),
+        //@ C01 C02 | inclusion invariant J (every held output key is justified by what is pressed)
         !any_hit ==> no_mention_upto(state.active_mappings@, it.index@ as int, k),
-        wf(*state), apply(h0, res.events@) == Some(held(*state)), !(res.repeat is NoChange), j1(*state), j2(*state), j4(*state), j6(*state), nonempty_from(state.active_mappings@),
+        //@ C19 | bookkeeping equals the fold of the emitted events; no redundant press or release
+        wf(*state),
+        apply(h0, res.events@) == Some(held(*state)),
+        //@ C09 | repeat request
+        !(res.repeat is NoChange),
+        //@ C01 C02 | inclusion invariant J (every held output key is justified by what is pressed)
+        j1(*state),
+        j2(*state),
+        //@ C02 | (d) trigger keys of mappings in effect are consumed (not passed through)
+        j4(*state),
+        //@ C05 | a release lifts only the key itself or outputs owned by its mappings; pass-through keys are not outputs of mappings in effect
+        j6(*state),
+        //@ C01 C02 | inclusion invariant J (every held output key is justified by what is pressed)
+        nonempty_from(state.active_mappings@),
+        //@  | frame / auxiliary
         it.seq().len() == state.active_mappings@.len(),
         forall|j: int| 0 <= j < state.active_mappings@.len() ==> *it.seq()[j] == state.active_mappings@[j],
       ensures
+        //@ C01 C02 | inclusion invariant J (every held output key is justified by what is pressed)
         !any_hit ==> no_mention(state.active_mappings@, k),
-    {
+      { //@ | body
       proof { reveal(no_mention_upto); }
       if m.from.contains(&k) {
         any_hit = true;
@@ -1625,14 +2092,21 @@ fn newly_press(mapper: &mut Mapper, k: KeyCode) -> (res: StepResult)
   res
 }
 
+//@ C01 C02 C06 C07 C09 C14 C19 | default: impl Mapper
 impl Mapper {
   pub closed spec fn inv(&self) -> bool { wf(self.state) && j1(self.state) && j2(self.state) && j3(self.state) && j4(self.state) && j6(self.state) && nonempty_from(self.state.active_mappings@) && hl_ok(self.layout) }
 
   /// C01 at a single state: nothing considered pressed ==> nothing held on the output
   pub broadcast proof fn lemma_rest(&self)
-    requires self.inv(), self.pressed_view().len() == 0
-    ensures #[trigger] self.held_view() == Set::<KeyCode>::empty()
-  {
+    requires
+      //@ C01 C02 | inclusion invariant J (every held output key is justified by what is pressed)
+      self.inv(),
+      //@ C01 C06 | at rest nothing is held
+      self.pressed_view().len() == 0,
+    ensures
+      //@ C01 C06 | at rest nothing is held
+      #[trigger] self.held_view() == Set::<KeyCode>::empty(),
+    { //@ | body
     let st = self.state;
     assert(st.active_mappings@.len() == 0) by {
       if st.active_mappings@.len() > 0 { let m = st.active_mappings@[0]; assert(m.from@.len() >= 1); assert(m.from@.contains(m.from@[0])); assert(sub(m.from@, st.input_pressed_keys@)); assert(st.input_pressed_keys@.contains(m.from@[0])); }
@@ -1644,9 +2118,16 @@ impl Mapper {
   pub closed spec fn held_view(&self) -> Set<KeyCode> { held(self.state) }
   pub closed spec fn pressed_view(&self) -> Seq<KeyCode> { self.state.input_pressed_keys@ }
   pub fn for_layout(layout: &Layout) -> (r: Mapper)
-    requires layout_ok(*layout)
-    ensures r.inv(), r.held_view() == Set::<KeyCode>::empty()
-  {
+    requires
+      //@  | frame / auxiliary
+      layout_ok(*layout),
+    ensures
+      //@ C01 C02 | inclusion invariant J (every held output key is justified by what is pressed)
+      r.inv(),
+      //@ C01 C06 | at rest nothing is held
+      r.held_view() == Set::<KeyCode>::empty(),
+      r.pressed_view().len() == 0,
+    { //@ | body
     Mapper {
       layout: make_hashed_layout(layout),
       state: State::init()
@@ -1654,16 +2135,25 @@ impl Mapper {
   }
   
   pub fn step(self: &mut Mapper, input: Event) -> (res: StepResult)
-    requires old(self).inv()
-    ensures final(self).inv(),
+    requires
+      //@ C01 C02 | inclusion invariant J (every held output key is justified by what is pressed)
+      old(self).inv(),
+    ensures
+      //@ C01 C02 | inclusion invariant J (every held output key is justified by what is pressed)
+      final(self).inv(),
+      //@ C19 | bookkeeping equals the fold of the emitted events; no redundant press or release
       apply(old(self).held_view(), res.events@) == Some(final(self).held_view()),
+      //@ C09 | repeat request
       (res.repeat is NoChange) <==> (match input { Event::Pressed(k) => old(self).pressed_view().contains(k), Event::Released(k) => !old(self).pressed_view().contains(k) }),
       (res.repeat is NoChange) ==> res.events@.len() == 0 && *final(self) == *old(self),
+      //@ C01 C02 C09 | effect of the call on the list of keys considered pressed
       match input { Event::Pressed(k) => forall|x: KeyCode| #[trigger] final(self).pressed_view().contains(x) ==> old(self).pressed_view().contains(x) || x == k,
                     Event::Released(k) => !final(self).pressed_view().contains(k) && forall|x: KeyCode| #[trigger] final(self).pressed_view().contains(x) ==> old(self).pressed_view().contains(x) },
+      //@ C02 C07 | release paths emit only releases
       match input { Event::Released(_) => all_released(res.events@), _ => true },
+      //@ C01 C06 | at rest nothing is held
       final(self).pressed_view().len() == 0 ==> final(self).held_view() == Set::<KeyCode>::empty(),
-  {
+    { //@ | body
     broadcast use Mapper::lemma_rest;
     let state = &mut self.state;
 
@@ -1694,11 +2184,20 @@ impl Mapper {
   }
   
   pub fn release_all(self: &mut Mapper) -> (events: Vec<Event>)
-    requires old(self).inv()
-    ensures final(self).inv(),
+    requires
+      //@ C01 C02 | inclusion invariant J (every held output key is justified by what is pressed)
+      old(self).inv(),
+    ensures
+      //@ C01 C02 | inclusion invariant J (every held output key is justified by what is pressed)
+      final(self).inv(),
+      //@ C19 | bookkeeping equals the fold of the emitted events; no redundant press or release
       apply(old(self).held_view(), events@) == Some(final(self).held_view()),
-      final(self).pressed_view().len() == 0, final(self).held_view() == Set::<KeyCode>::empty(),
-  {
+      //@ C01 C06 | at rest nothing is held
+      final(self).pressed_view().len() == 0,
+      final(self).held_view() == Set::<KeyCode>::empty(),
+      //@ C02 C07 | release paths emit only releases
+      all_released(events@),
+    { //@ | body
     broadcast use Mapper::lemma_rest;
     let to_release = self.state.input_pressed_keys.clone();
     let ghost tr = to_release@;
@@ -1707,13 +2206,22 @@ impl Mapper {
     let ghost h0 = held(old(self).state);
     
     for k in it: to_release
-      invariant self.inv(), apply(h0, events@) == Some(held(self.state)), it.seq() == tr,
+      invariant
+        //@ C01 C02 | inclusion invariant J (every held output key is justified by what is pressed)
+        self.inv(),
+        //@ C19 | bookkeeping equals the fold of the emitted events; no redundant press or release
+        apply(h0, events@) == Some(held(self.state)),
+        //@  | frame / auxiliary
+        it.seq() == tr,
+        //@ C02 C07 | release paths emit only releases
+        all_released(events@),
+        //@ C01 C02 C09 | effect of the call on the list of keys considered pressed
         forall|x: KeyCode| #[trigger] self.state.input_pressed_keys@.contains(x) ==> tr.contains(x) && !tr.take(it.index@ as int).contains(x),
-    {
+      { //@ | body
       proof { assert(tr.take(it.index@ as int + 1) =~= tr.take(it.index@ as int).push(k)); lemma_push_contains(tr.take(it.index@ as int), k); }
       let ghost e0 = events@;
       let mut chunk = self.step(Released(k));
-      proof { lemma_apply_append(h0, e0, chunk.events@); }
+      proof { lemma_apply_append(h0, e0, chunk.events@); lemma_append_contains(e0, chunk.events@); }
       events.append(&mut chunk.events);
     }
     proof { assert(tr.take(tr.len() as int) =~= tr);
